@@ -18,6 +18,10 @@ def cases(rng, tier):
         yield Case(program=gen.render(scope_program(rng)), tag='scope', nontrivial=True)
     for i in range(n // 4):
         yield Case(program=gen.render(fref_program(rng)), tag='fref', nontrivial=True)
+    # every syntactic form at random (untyped): the model is the oracle, errors included
+    for i in range(2 * n):
+        t = gen.wild(rng, rng.randint(2, 5))
+        yield Case(program=gen.render(t), stdin="w1\nw2\n", tag='wild', nontrivial=gen.size(t) >= 8, timeout=2.0, fuel=400_000)
     for i in range(n // 2):
         t = scope_program(rng) if rng.random() < 0.5 else g.program()
         yield Case(program=gen.render(bad_reference(rng, t)), tag='badref', nontrivial=True)
@@ -229,7 +233,7 @@ SPEC = {
     'relevant': relevant,
     'stream': 'C02 typed/closure program stream (main.main result vs uhdrv main)',
     'rule': 'type-directed random closed programs (closures returned / passed / nested ≤ depth, computed and negative '
-            'indices, Boolean / list / dict / string callables) plus closure families, the fref family (2–4 nested functions, the innermost calling any enclosing level by positive or negative function index, directly or through an identity), the badref family (one reference made ill-scoped: negative / too large position, non-existent frame) and the scope family (one enclosing closure applied along several argument paths; inner bodies refer to outer parameters statically, as computed positions, from nested functions, outermost-relative); a case is non-trivial when its '
+            'indices, Boolean / list / dict / string callables) plus the wild family (untyped random trees over every syntactic form: references in and out of range, any function index, definitions, built-ins at typical and untypical arities, arbitrary callees), closure families, the fref family (2–4 nested functions, the innermost calling any enclosing level by positive or negative function index, directly or through an identity), the badref family (one reference made ill-scoped: negative / too large position, non-existent frame) and the scope family (one enclosing closure applied along several argument paths; inner bodies refer to outer parameters statically, as computed positions, from nested functions, outermost-relative); a case is non-trivial when its '
             'tree has ≥ 8 nodes; distinct by program text',
     'trusted': ['hand-written model UH/Model/{Interp,Builtins,Machine}.lean tied to the code by correspondence only'],
     'assumptions': ['host big integers = Lean Int; IEEE-754 + − × ÷ of the host on both sides'],
